@@ -301,6 +301,38 @@ func runC05(e *Engine, r *Report, tier string) {
 				}
 				off := ReachAvoiding(fn, appendStore, func(i ssa.Instruction) bool { _, ok := i.(*ssa.Return); return ok }, isDel)
 				if off != nil {
+					// the other order: the pool entry is deleted first and then, unless that delete failed, the transfer is
+					// always taken into the selection
+					var delFirst ssa.CallInstruction
+					for _, d := range delCalls {
+						if isDel(d) && Dominates(d, appendStore) {
+							delFirst = d
+						}
+					}
+					if delFirst != nil {
+						lost := ReachAvoiding(fn, delFirst, func(i ssa.Instruction) bool { _, ok := i.(*ssa.Return); return ok }, func(i ssa.Instruction) bool {
+							if i == appendStore {
+								return true
+							}
+							// the branch taken when the delete itself failed
+							if iff, ok := i.(*ssa.If); ok {
+								if bo, ok := iff.Cond.(*ssa.BinOp); ok && (isNilConst(bo.X) || isNilConst(bo.Y)) {
+									if v, ok := delFirst.(ssa.Value); ok && (bo.X == v || bo.Y == v) {
+										return true
+									}
+								}
+							}
+							return false
+						})
+						if lost == nil {
+							off = nil
+						} else {
+							r.Fail("R2", ck, e.InstrPos(lost), "a transfer can be deleted from the pool without being taken into the batch (e.g. when the batch is already full): it is then in no pool and no batch, and can be neither cancelled nor executed")
+							continue
+						}
+					}
+				}
+				if off != nil {
 					r.Fail("R2", ck, e.InstrPos(off), "a selected transfer can stay in the pool: some path from selection to return does not delete its pool entry (it would be in the pool and in a batch)")
 				} else {
 					// verify-absent read after delete
